@@ -1,5 +1,6 @@
 (* allow-axioms:  *)
-From RRE Require Import Base.Sx Base.Float Base.Num Model.ExprShape Model.Forward Model.ForwardSpec Model.Backward Proofs.BackwardProofs Proofs.BackwardClosureProofs.
+From RRE Require Import Base.Sx Base.Float Base.Num Model.ExprShape Model.Forward Model.ForwardSpec Model.Backward Proofs.BackwardProofs Proofs.BackwardClosureProofs Proofs.BackwardCompleteProofs.
+From Coq Require Import Lia.
 Open Scope Z_scope.
 From RRE Require Import Properties.C09.
 Check (C09_depth_first_sound : forall rules max_depth goal f f',
@@ -13,3 +14,15 @@ Check (C09_result_within_closure : forall rules max_depth D, horn rules -> close
 Check (C09_proven_goal_in_closure : forall rules max_depth D, horn rules -> closedD rules D ->
   forall goal f f', covers D f -> dfs rules max_depth goal f = (true, f') ->
     (exists v, In (b_field goal, v) D /\ goal_sat (Some v) goal = true) \/ goal_sat None goal = true).
+Check (C09_bounded_completeness_partial : forall rules max_depth f0,
+  flat f0 -> horn rules ->
+  (forall k v v', In (k, v) (f0 ++ flat_map br_sets rules) -> In (k, v') (f0 ++ flat_map br_sets rules) -> v = v') ->
+  (forall r, In r rules -> conj (br_cond r) = true) ->
+  (forall r, In r rules -> gnonnum (br_cond r) = true) ->
+  (forall r, In r rules -> (gdepth (br_cond r) <= 62)%nat) ->
+  forall goal h, positive_op (b_op goal) = true -> Z.of_nat h <= max_depth ->
+    goal_holds (level h rules f0) goal = true -> fst (dfs rules max_depth goal f0) = true).
+Check (C09_search_extends_facts : forall rules max_depth f0, horn rules ->
+  (forall k v v', In (k, v) (f0 ++ flat_map br_sets rules) -> In (k, v') (f0 ++ flat_map br_sets rules) -> v = v') ->
+  forall fuel goal cands depth f b f', (forall r, In r cands -> In r rules) -> covers (f0 ++ flat_map br_sets rules) f ->
+    search rules max_depth fuel goal cands depth f = (b, f') -> forall k v, fget f k = Some v -> fget f' k = Some v).
